@@ -486,3 +486,11 @@ add('C18.twin_names', 'C18', (MV, "          reference_data = utils.get_tensor_d
     (), 'reference detail looked up by name instead of using the loop value', kind='twin')
 add('C09.peek_dataset', 'C09', (CAL, "    for data in calibration_dataset:\n      # Initialize tensor names", "    first = next(iter(calibration_dataset), None)\n    if first is None:\n      return\n    for data in calibration_dataset:\n      # Initialize tensor names"),
     'C09.R9', 'peeking at a one-shot calibration dataset drops its first sample')
+add('C19.entry_only_io', 'C19', [(PG, "    for subgraph in self.flatbuffer_model.subgraphs:\n      graph_info = qtyping.GraphInfo(\n          subgraph.tensors, self.flatbuffer_model.buffers\n      )\n      # Add input/output operators to the subgraph.\n      subgraph.operators += (\n          tfl_flatbuffer_utils.get_subgraph_input_output_operators(subgraph)\n      )",
+    "    entry = {s.subgraphIndex for s in (self.flatbuffer_model.signatureDefs or [])} or {0}\n    for subgraph_id, subgraph in enumerate(self.flatbuffer_model.subgraphs):\n      graph_info = qtyping.GraphInfo(\n          subgraph.tensors, self.flatbuffer_model.buffers\n      )\n      if subgraph_id in entry:\n        subgraph.operators += (\n            tfl_flatbuffer_utils.get_subgraph_input_output_operators(subgraph)\n        )")],
+    ('C19.R8',), 'virtual IO operators only for subgraphs referenced by a signature (seeded b3-C19; first version: caught under C10.R2 only)')
+add('C01.adjacent_grouping', 'C01', (TIG, "              for new_group in next_depth_groups:\n                # get an index in the existing group, any of them work since\n                # they have the same quantization\n                index = next(iter(new_group))",
+    "              for new_group in next_depth_groups[-1:]:\n                # get an index in the existing group, any of them work since\n                # they have the same quantization\n                index = next(iter(new_group))"),
+    'C01.R10', 'only the most recent group is considered: equal consumers separated by a different one get two inserted ops with the same tensor name (seeded b3-C01; MISSED by the first version - declared blind spot)')
+add('C01.group_ignores_params', 'C01', (TIG, "  return (\n      param1.parameters == param2.parameters\n      and len(param1.transformations) > index", "  return (\n      len(param1.transformations) > index"),
+    'C01.R10', 'consumers with different parameters merged into one inserted op')
